@@ -288,7 +288,11 @@ def execute_e2e(case, which):
         _, sim = siminv.build_direct(dict(cfg), default=lambda a, s=salt: (a * 31 + s * 17 + 3) & 0x7FFF)
         if cfg["family"] == "ES":
             sim.regs = _Regs(lambda a, s=salt: (a * 29 + s) & 0x7FFF)
-        peers[hosts[name]] = ScriptedPeer(siminv.responder_for(inv, sim), [], default=("answer", spec.get("latency", 1) / 16.0))
+        default = ("answer", spec.get("latency", 1) / 16.0)
+        if spec.get("frag"):     # this inverter delivers every answer in two pieces
+            cut, d1, d2 = spec["frag"]
+            default = ("frag", cut, d1 / 16.0, d2 / 16.0)
+        peers[hosts[name]] = ScriptedPeer(siminv.responder_for(inv, sim), [], default=default)
         objs[name] = {"inv": inv, "sim": sim, "results": [], "tcp": cfg.get("tcp", False)}
     world = World(MultiPeer(peers))
     loop = VLoop(world, max_time=1e5)
@@ -368,6 +372,12 @@ def e2e_job(job):
                     acc.fail(key, msg, c)
                 if len(acc.samples) < 1:
                     acc.sample(case)
+                if i % 2 == 0 or va == vb:
+                    # both inverters deliver their answers in two datagrams / segments; the calls of the two objects overlap
+                    fc = {"e2e": True, "objects": {"A": dict(case["objects"]["A"], frag=[9, la, la + 4]), "B": dict(case["objects"]["B"], frag=[(9, 14, 30)[i % 3], lb, lb + 3])},
+                          "seq": {"A": [["runtime"], ["read_setting", "grid_export_limit"], ["runtime"]], "B": [["runtime"], ["read_setting", "grid_export_limit"], ["runtime"]]}, "merge": []}
+                    for key, msg, c in run_case_e2e(acc, fc):
+                        acc.fail(key, msg, c)
     return acc
 
 
